@@ -83,6 +83,10 @@ Closed(L, c) ==
 
 Silent(L) == \A i \in DOMAIN L : L[i].k \notin {"new_span", "event", "follows", "record"}
 
+\* under a disabling collector the attribute adds nothing at all: also the enter / exit / close callbacks (of spans that are
+\* not the attribute's, e.g. an enclosing span the caller entered) are those of the plain twin
+Lifecycle(L) == LET s == SelectSeq(L, LAMBDA x : x.k \in {"enter", "exit", "close"}) IN [i \in DOMAIN s |-> <<s[i].k, s[i].id>>]
+
 Env(L) == L[1]
 Accept(mode, I, P, X) ==
   /\ TwinEq(I, P)
@@ -91,5 +95,5 @@ Accept(mode, I, P, X) ==
      THEN \A c \in DOMAIN X : LET cc == c - 1 IN
             /\ SpanOk(I, cc, X[c], Env(I))
             /\ Bracket(I, cc) /\ NothingElse(I, cc) /\ Events(I, cc, X[c]) /\ Closed(I, cc)
-     ELSE Silent(I)
+     ELSE Silent(I) /\ Lifecycle(I) = Lifecycle(P)
 =============================================================================
